@@ -47,6 +47,7 @@ func genC11(r *simrt.Rand, tier string) (Cfg, *Program) {
 	pf.AdFaults = r.Chance(50)
 	pf.ErrReaderPct = 30
 	pf.CloseInFnPct = 8
+	pf.IDPct = 40 // chosen job ids (printable, control characters, non-BMP runes) must survive storage
 	return generate(r, pf)
 }
 
